@@ -593,7 +593,7 @@ class IntegralGenerator:
         output = [A]
 
         # Make sure we don't have repeated symbols in input
-        input = list(set(input))
+        input = list(dict.fromkeys(input))
 
         # assert input and output are Symbol objects
         assert all(isinstance(i, L.Symbol) for i in input)
